@@ -579,6 +579,10 @@ ReliableNeverSkipped ==
 RxAllocBound == rAlloc <= RxAlloc
 TxRespectsPeer == sAlloc <= TxAlloc /\ PSub(sNext, sBase) <= PW
 NoPlaceholderBetweenHonest == \A s \in Slots : s \in entryFlag => entry[s].uid # 0
+(* the receiver never charges more than the sender still accounts for: it releases a packet when it delivers or skips it, the
+   sender only when the acknowledgement arrives - the reason why "no packet is ever discarded for lack of receive memory"
+   between honest endpoints (the receiver half of C06; MonBuffer checks the same on the code) *)
+RxWithinTx == rAlloc <= sAlloc
 
 (* C20: send_buffer_size() = sizes of the packets queued or in the window *)
 RECURSIVE SumNf(_)
